@@ -28,8 +28,11 @@ Inductive fval : Type :=
 Inductive C13_op : Type :=
 | Dec (k : kind) (d : bytes)        (* from_bytes on arbitrary bytes *)
 | Rt (v : value) (d : bytes)        (* d is the announced encoding of v: from_bytes d must give v back *)
-| RtBe (v : value) (d : bytes)      (* d is v as another vendor sends it in PL_CDR_BE (the crate has no
-                                       big-endian writer, so d is not checked against a model encoder) *)
+| RtExt (v : value) (d : bytes)     (* d is an announcement of v that the crate's writer does not produce: as another
+                                       vendor sends it in PL_CDR_BE and/or with unknown, vendor-specific or
+                                       must-understand-flagged parameters inserted (ids 0x8000|pid, 0x4000|pid,
+                                       0xC000|pid, near misses) before/after/instead of the genuine ones.
+                                       from_bytes d must give v back; d is not checked against a model encoder *)
 | Enc (f : fval)                    (* XCDR1 little-endian encoder of one policy value, padded to 4 *)
 | Ann (p : participant).            (* announce_participant: the bytes put into the SPDP writer cache, decoded again *)
 
@@ -163,7 +166,7 @@ Definition C13_model_ok (c : C13_case) : bool :=
   match c_op c, c_out c with
   | Dec k d, ODec o => dec_out_eqb (model_dec k d) o
   | Rt v d, ODec o => bytes_eqb (into_bytes_v v) d && dec_out_eqb (model_dec (kind_of v) d) o
-  | RtBe v d, ODec o => dec_out_eqb (model_dec (kind_of v) d) o
+  | RtExt v d, ODec o => dec_out_eqb (model_dec (kind_of v) d) o
   | Enc f, OEnc b => bytes_eqb (enc_model f) b
   | Ann p, OAnn b o => bytes_eqb (participant_into_bytes p) b && dec_out_eqb (model_dec KP b) o
   | _, _ => false
@@ -179,8 +182,8 @@ Definition C13_oracle_ok (c : C13_case) : bool :=
   | Dec _ _, ODec _ => true
   | Rt v _, ODec (DOk v' _ rt) => value_eqb v' v && (rt =? 1)
   | Rt _ _, ODec _ => false
-  | RtBe v _, ODec (DOk v' _ rt) => value_eqb v' v && (rt =? 1)
-  | RtBe _ _, ODec _ => false
+  | RtExt v _, ODec (DOk v' _ rt) => value_eqb v' v && (rt =? 1)
+  | RtExt _ _, ODec _ => false
   | Enc _, OEnc _ => true
   | Ann p, OAnn _ (DOk v' _ rt) => value_eqb v' (VP p) && (rt =? 1)
   | Ann _, OAnn _ _ => false
@@ -198,7 +201,7 @@ Definition known_v (v : value) : N :=
 Definition C13_known (c : C13_case) : N :=
   match c_op c with
   | Rt v _ => known_v v
-  | RtBe v _ => known_v v
+  | RtExt v _ => known_v v
   | Ann p => known_v (VP p)
   | _ => 0%N
   end.
